@@ -48,6 +48,10 @@ fn main() {
         "C01" => checks::c01::run(tier),
         "C12" => checks::c12::run(tier),
         "C06" => checks::c06::run(tier),
+        "C08" => checks::c08::run(tier),
+        "C16" => checks::c16::run(tier),
+        "C05" => checks::c05::run(tier),
+        "C04" => checks::c04::run(tier),
         "C15" => checks::c15::run(tier),
         "C09" => checks::c09::run(tier),
         "C07" => checks::c07::run(tier),
